@@ -74,6 +74,11 @@ pub struct CeremonyTrace {
     /// through its parser
     #[serde(default)]
     pub typed_api: bool,
+    /// the block is built by `MetablockBuilder::from_raw_metadata` from a text that is not in the
+    /// library's normal form (bit 0 pretty-printed, bit 1 an unmodelled member, bit 2 a `Z` expiry
+    /// spelled `+00:00`, bit 3 null members left out)
+    #[serde(default)]
+    pub raw_path: Option<u8>,
 }
 
 /// The same key material declared with another scheme (None if the library refuses to build it).
@@ -101,7 +106,40 @@ pub fn body_value(b: &BodySpec, keys: &[KeySpec]) -> Value {
 }
 
 /// Sign through one of the two construction paths. Returns the block.
-fn construct(signed: &Value, signers: &[usize], keyspecs: &[KeySpec], builder_path: bool, typed: Option<MetadataWrapper>) -> Result<Metablock, String> {
+fn raw_text(signed: &Value, variant: u8) -> String {
+    let mut v = signed.clone();
+    if let Some(o) = v.as_object_mut() {
+        if variant & 8 != 0 {
+            let nulls: Vec<String> = o.iter().filter(|(_, x)| x.is_null()).map(|(k, _)| k.clone()).collect();
+            for k in nulls {
+                o.remove(&k);
+            }
+        }
+        if variant & 4 != 0 {
+            if let Some(Value::String(e)) = o.get_mut("expires") {
+                if e.ends_with('Z') {
+                    *e = format!("{}+00:00", &e[..e.len() - 1]);
+                }
+            }
+        }
+        if variant & 2 != 0 {
+            o.insert("x-note".into(), json!({"unmodelled": [1, "two"]}));
+        }
+    }
+    if variant & 1 != 0 {
+        serde_json::to_string_pretty(&v).unwrap_or_default()
+    } else {
+        serde_json::to_string(&v).unwrap_or_default()
+    }
+}
+
+fn construct(signed: &Value, signers: &[usize], keyspecs: &[KeySpec], builder_path: bool, typed: Option<MetadataWrapper>, raw: Option<u8>) -> Result<Metablock, String> {
+    if let (Some(variant), None) = (raw, &typed) {
+        let ks: Vec<_> = signers.iter().map(|k| keys::key(keyspecs[*k])).collect();
+        let privs: Vec<&PrivateKey> = ks.iter().map(|k| &k.private).collect();
+        let b = MetablockBuilder::from_raw_metadata(raw_text(signed, variant).as_bytes()).map_err(|e| format!("{e}"))?;
+        return Ok(b.sign(&privs).map_err(|e| format!("{e}"))?.build());
+    }
     let text = serde_json::to_string(signed).map_err(|e| e.to_string())?;
     let meta: MetadataWrapper = match typed {
         Some(m) => m,
@@ -162,8 +200,10 @@ pub fn prepare(t: &CeremonyTrace) -> Prepared {
     let typed = if t.typed_api { crate::typed::body(&t.body, &t.keys) } else { None };
     if t.typed_api && typed.is_some() {
         fired.push("TYPED-API".into());
+    } else if t.raw_path.is_some() {
+        fired.push("RAW-METADATA-PATH".into());
     }
-    let mb = match construct(&signed, &t.signers, &t.keys, t.builder_path, typed.clone()) {
+    let mb = match construct(&signed, &t.signers, &t.keys, t.builder_path, typed.clone(), t.raw_path) {
         Ok(m) => m,
         Err(e) => return Prepared { mb: None, state3: Value::Null, unsignable: Some(e), fired },
     };
@@ -171,7 +211,7 @@ pub fn prepare(t: &CeremonyTrace) -> Prepared {
     let mut sigs: Vec<Value> = serde_json::to_value(&mb.signatures).unwrap().as_array().cloned().unwrap_or_default();
     for r in &t.resign {
         if let Some(k) = t.signers.get(*r) {
-            if let Ok(m2) = construct(&signed, &[*k], &t.keys, false, typed.clone()) {
+            if let Ok(m2) = construct(&signed, &[*k], &t.keys, false, typed.clone(), t.raw_path) {
                 if let Some(s) = serde_json::to_value(&m2.signatures).unwrap().as_array().and_then(|a| a.first().cloned()) {
                     sigs.push(s);
                     fired.push("RESIGN".into());
@@ -441,9 +481,10 @@ fn fold(t: &CeremonyTrace, o: &CeremonyOutcome, findings: Vec<Finding>, rec: &mu
             text.contains('\u{2028}'),
         ];
         sh.str(&format!(
-            "{}|{}|{}|{:?}|{:?}|{:?}|len{}",
+            "{}|{}|{:?}|{}|{:?}|{:?}|{:?}|len{}",
             matches!(t.body, BodySpec::Layout(_)),
             t.typed_api,
+            t.raw_path,
             t.builder_path,
             std::mem::discriminant(&t.wire),
             kinds,
@@ -655,6 +696,14 @@ fn base_trace(seed: u64, tier: Tier, mode: Mode) -> (CeremonyTrace, Rng) {
         auth_json_alias: vec![],
         frozen_sigs: None,
         typed_api: r.chance(1, 2),
+        raw_path: {
+            let mut rr = Rng::stream(seed, "rawpath");
+            if rr.chance(1, 4) {
+                Some(rr.below(16) as u8)
+            } else {
+                None
+            }
+        },
     };
     (t, r)
 }
